@@ -1238,6 +1238,11 @@ int32_t jls_core_ts_seek(struct jls_core_s * self, uint16_t signal_id, uint8_t l
                 --idx;
                 break;
             } else if (r->entries[idx].timestamp == timestamp) {
+                if ((lvl > 1) && (idx > 0)) {
+                    // an entry holds the first timestamp of its lower-level chunk:
+                    // the previous chunk may end with this same timestamp.
+                    --idx;
+                }
                 break;
             }
         }
